@@ -1,5 +1,6 @@
 """C16 - all output formats describe the same memory contents as the binary image."""
 import ast
+from engine.cfg import is_sys_exit_call
 
 from engine.index import AnalysisError
 from engine.helpers import (resolver, facts_at, filter_facts_at, lit_cmp, describe_facts, unparse, walk_no_nested, returns,
@@ -216,6 +217,14 @@ def c16_4(ctx):
     ctx.check(len(first) >= 1 and len(rest) == 1, 'listing:all-rows', pl.site(), 'the first row of bytes and every continuation row are written', f'{len(first)} / {len(rest)}')
 
 
+    # rendering a line never gives up: the listing is total over the line objects the assembler produced
+    for f in (pl, gen, pp):
+        ab = [n for n in ast.walk(f.node) if isinstance(n, ast.Raise) or (isinstance(n, ast.Call) and is_sys_exit_call(n))]
+        ctx.check(not ab, f'listing:total:{f.name}', f.site(ab[0]) if ab else f.site(),
+                  'rendering never aborts on a line the assembler accepted (a statement that produces no bytes is listed with an empty byte column)',
+                  f'{unparse(ab[0])[:100] if ab else ""}: a program that assembled cannot be listed')
+
+
 RULES = [c16_1, c16_2, c16_3, c16_4]
 
 _IH = 'assembler/pretty_printer/intelhex.py'
@@ -233,5 +242,6 @@ MUTANTS = [
     V('c16-hex-flag-swapped', 'assembler/pretty_printer/factory.py', "            return IntelHexPrettyPrinter(line_objs, model, False)\n        elif pretty_printer_type == 'intel_hex':\n            return IntelHexPrettyPrinter(line_objs, model, True)", "            return IntelHexPrettyPrinter(line_objs, model, True)\n        elif pretty_printer_type == 'intel_hex':\n            return IntelHexPrettyPrinter(line_objs, model, False)", 'C16.1'),
     V('c16-listing-next-address', _LS, "            output.write(self._address_format_str.format(lobj.address))", "            output.write(self._address_format_str.format(lobj.address + lobj.byte_size))", 'C16.4'),
     V('c16-printer-filters-list', 'assembler/pretty_printer/__init__.py', "        self._line_objs = line_objs\n", "        self._line_objs = [lo for lo in line_objs if lo.instruction]\n", 'C16.1'),
+    V('c16-listing-aborts-empty', _LS, "        if line_bytes:\n            output.write(line_bytes[0])\n", "        if line_bytes is not None:\n            try:\n                output.write(line_bytes[0])\n            except IndexError:\n                raise SystemExit(f'ERROR - internal: line_bytes is empty for line {lobj}')\n", 'C16.4'),
 ]
 TWINS = []
